@@ -224,6 +224,8 @@ def semi_parametric(X, y, gamma=None):
     np.fill_diagonal(R, 1.0)
     if gamma is not None:
         R = gamma * R + (1 - gamma) * np.eye(d)
+    if not np.linalg.cond(R) < 1e10:
+        return None          # (numerically) singular rank correlation: outside the property's quantifier
     return logg - 0.5 * (np.linalg.slogdet(R)[1] + float(eta @ (np.linalg.inv(R) - np.eye(d)) @ eta))
 
 
@@ -589,8 +591,9 @@ class C20(PropCheck):
         clause the text is constant, so a systematic break gives a handful of replays, not hundreds."""
         res = []
         for clause, msg in getattr(self, 'py_' + case['kind'])(case, out):
-            c = self._py_seen.get(clause, 0)
-            self._py_seen[clause] = c + 1
+            k = (clause, self.classify(case, out, clause))      # known findings do not use up the detailed slots
+            c = self._py_seen.get(k, 0)
+            self._py_seen[k] = c + 1
             res.append((clause, msg if c < 2 else 'further failing case of this clause (details in its first replays)'))
         return res
 
@@ -714,7 +717,7 @@ class C20(PropCheck):
     def py_val(self, case, out):
         want = self.spec_val(case)
         if want is None:
-            self.bump('val:semi:ill-conditioned-not-compared')
+            self.bump('val:semi:ill-conditioned-or-singular-not-compared')
             return []
         if out['loglik'] is None:
             return [('likelihood_formula[%s]' % case['mode'],
